@@ -33,8 +33,9 @@ import (
 var c04Lens = []int{0, 1, 2, 32, 255, 256, 257, 65535, 65536}
 
 type c04Gen struct {
-	r   *verifkit.Rand
-	out *verifkit.Out
+	r     *verifkit.Rand
+	out   *verifkit.Out
+	reuse map[string]interface{} // per structure: a destination that already holds a previously decoded value
 }
 
 // length picks a byte-string length: mostly small, the boundaries regularly, the 64 KiB ones now and then.
@@ -311,6 +312,31 @@ func (g *c04Gen) decodeCase(name string, mk func() interface{}, show func(interf
 		return
 	}
 	g.out.T(op, "ok "+s+" rest="+hx(rest))
+	// the same bytes decoded into a destination that already holds an earlier value of the structure (a client reusing a
+	// variable, a pooled struct): the result must be what the fresh decode gave — nothing of the old value may survive
+	if g.reuse == nil {
+		g.reuse = map[string]interface{}{}
+	}
+	old, ok2 := g.reuse[name]
+	if !ok2 {
+		g.reuse[name] = p
+		return
+	}
+	g.out.Count("mode:reused-destination")
+	before, _ := show(old)
+	var rest2 []byte
+	var err2 error
+	if pan := verifkit.Guard(func() { rest2, err2 = tls.Unmarshal(data, old) }); pan != "" {
+		g.out.Fail("panic "+op, "decoding into a reused destination: "+pan)
+		delete(g.reuse, name)
+		return
+	}
+	s2, _ := show(old)
+	re2, okm, _ := c04Marshal(reflect.ValueOf(old).Elem().Interface())
+	if err2 != nil || s2 != s || !bytes.Equal(rest2, rest) || !okm || !bytes.Equal(re2, consumed) {
+		g.out.Fail("reuse "+op, fmt.Sprintf("decoded into a destination holding {%s}: got {%s} (err=%v); a fresh destination gives {%s}", before, s2, err2, s))
+		delete(g.reuse, name)
+	}
 }
 
 func showChain(c []ASN1Cert) string {
